@@ -47,6 +47,34 @@ namespace
     SparseMatrixCSR<double, u64> csr;
     SparseMatrixBCSR<double, u64, 2, 2> bcsr;
     Blob blob;
+    // a bystander sharing the arrays of the slot's container (shallow clone), created by the 'share' operation
+    bool has_by = false;
+    DenseVector<double, u64> by_dv;
+    SparseMatrixCSR<double, u64> by_csr;
+    SparseMatrixBCSR<double, u64, 2, 2> by_bcsr;
+
+    void share()
+    {
+      has_by = true;
+      switch(kind)
+      {
+      case K_DV: by_dv = dv.clone(CloneMode::Shallow); break;
+      case K_CSR: by_csr = csr.clone(CloneMode::Shallow); break;
+      case K_BCSR: by_bcsr = bcsr.clone(CloneMode::Shallow); break;
+      default: break;
+      }
+    }
+    std::string by_fp() const
+    {
+      if(!has_by) return "";
+      switch(kind)
+      {
+      case K_DV: return "DV:" + vfp(by_dv).str();
+      case K_CSR: return "CSR:" + vfp(by_csr).str();
+      case K_BCSR: return "BCSR:" + vfp(by_bcsr).str();
+      default: return "";
+      }
+    }
 
     void set_variant(int slot, int var)
     {
@@ -54,9 +82,9 @@ namespace
       switch(kind)
       {
       case K_DV:
-        // lengths 0, 3+slot, 6: different serialised sizes per slot and variant
+        // lengths 0, 3+slot (extreme values: +-1e300, denormals, ...), 6: different serialised sizes per slot and variant
         { const Index len[3] = {Index(0), Index(3 + slot), Index(6)}; DenseVector<double, u64> x(len[var]);
-          for(Index i = 0; i < len[var]; ++i) x(i, pv(i, u64(10 + slot * 3 + var))); dv = std::move(x); }
+          for(Index i = 0; i < len[var]; ++i) x(i, var == 1 ? xv<double>(u64(i) * 5 + u64(slot) * 7 + 1) : pv(i, u64(10 + slot * 3 + var))); dv = std::move(x); }
         break;
       case K_CSR:
         // 2x3 with an empty row; entry-free 3x2 (no arrays); 3x3 pattern depending on the slot
@@ -118,7 +146,7 @@ namespace
   const char* NAMES[3] = {"a", "b", "ab"};
 
   // operations
-  enum OpKind { O_ADD, O_REMOVE, O_MUTATE, O_SAVE, O_CLEAR, O_LOAD, O_RESTORE };
+  enum OpKind { O_ADD, O_REMOVE, O_MUTATE, O_SAVE, O_CLEAR, O_LOAD, O_RESTORE, O_SHARE };
   struct Op { OpKind k; int name; int slot; bool add; };
   std::string op_str(const Op& o)
   {
@@ -130,6 +158,7 @@ namespace
     case O_SAVE: return "save";
     case O_CLEAR: return "clear_input";
     case O_LOAD: return "load";
+    case O_SHARE: return "share(s" + std::to_string(o.slot) + ")";
     default: return std::string("restore(") + NAMES[o.name] + ",s" + std::to_string(o.slot) + (o.add ? ",add)" : ",noadd)");
     }
   }
@@ -147,7 +176,12 @@ namespace
     Snapshot stream;
     bool loaded = false;
     Snapshot input;
-    bool allow_empty_load = false;   // loading a checkpoint without objects (only while the probe of that class passes)
+    bool allow_empty_load = false;
+    std::string by[3];               // content of the bystander of each slot ("" = none)
+    // model-level history bits that enter the dedup key (a defective implementation could cache behind an identical state)
+    bool stale = false;              // registration or registered content changed since the last save
+    int nloads = 0;                  // loads so far, capped at 2
+    bool restored = false;           // a restore happened since the last load   // loading a checkpoint without objects (only while the probe of that class passes)
 
     bool enabled(const Op& o) const
     {
@@ -156,6 +190,7 @@ namespace
       case O_ADD: return reg.count(NAMES[o.name]) == 0;
       case O_REMOVE: return reg.count(NAMES[o.name]) == 1;
       case O_MUTATE: case O_SAVE: case O_CLEAR: return true;
+      case O_SHARE: return kind[o.slot] != K_BLOB && by[o.slot].empty();
       case O_LOAD: return has_stream && (allow_empty_load || !stream.empty()) && !loaded;
       case O_RESTORE:
         {
@@ -202,6 +237,7 @@ namespace
       k += "|S";
       k += std::to_string(verif::Hash().bytes(bs.container().data(), bs.container().size()).get());
       k += "|I";
+      for(int s = 0; s < 3; ++s) { k += slot[s].by_fp(); k += "|"; }
       k += std::to_string(cp._input_array.size()); k += ":";
       k += std::to_string(verif::Hash().bytes(cp._input_array.data(), cp._input_array.size()).get());
       for(auto& it : cp._offset_by_identifier) { k += it.first; k += "@"; k += std::to_string(it.second); k += ","; }
@@ -268,10 +304,10 @@ int main(int argc, char** argv)
   Runtime::ScopeGuard guard(argc, argv);
   verif::Spec spec; spec.property = "C05"; spec.harness = "c05_checkpoint";
   spec.rule = "one case = one BFS over CheckpointControl histories from one start configuration (kinds of the 3 slots x which names are registered initially), states deduplicated on the "
-    "implementation key (slot contents, identifier->slot map, stream bytes, _input_array, _offset_by_identifier); plus one case per (slot kinds, assignment of the 3 names to slots) for the "
+    "implementation key (slot and bystander contents, identifier->slot map, stream bytes, _input_array, _offset_by_identifier) extended by model-level history bits (changed-since-save, number of loads capped at 2, restored-since-load); plus one case per (slot kinds, assignment of the 3 names to slots) for the "
     "file based save/load. Non-trivial: every distinct implementation state reached by >= 1 operation; every file case with >= 1 registered object.";
   spec.bounds_quick = "slot kind triples {DV,DV,CSR},{CSR,CSR,DV},{BCSR,DV,BCSR},{Blob,Blob,DV},{DV,CSR,Blob}; names {a,b,ab}; 3 content variants per slot (different serialised sizes, incl. length 0, "
-    "entry-free, empty rows); alphabet add/remove/mutate/save/clear_input/load/restore(add|noadd); depth <= 5; file cases: all 4^3 assignments per triple";
+    "entry-free, empty rows); alphabet add/remove/mutate/share(bystander shallow clone)/save/clear_input/load/restore(add|noadd); depth <= 5; file cases: all 4^3 assignments per triple";
   spec.bounds_thorough = "as quick with depth <= 7";
   spec.assumptions = {
     "reference model = std::map<name, (kind, content fingerprint)> for stream and loaded input, std::map<name, slot> for the registration; fingerprints are read from the raw arrays",
@@ -317,6 +353,7 @@ int main(int argc, char** argv)
     ops.push_back({O_SAVE, 0, 0, false});
     ops.push_back({O_CLEAR, 0, 0, false});
     ops.push_back({O_LOAD, 0, 0, false});
+    for(int s = 0; s < 3; ++s) ops.push_back({O_SHARE, 0, s, false});
     for(int n = 0; n < 3; ++n) for(int s = 0; s < 3; ++s) { ops.push_back({O_RESTORE, n, s, false}); ops.push_back({O_RESTORE, n, s, true}); }
 
     for(int cfg = 0; cfg < 5; ++cfg) for(int init = 0; init < 8; ++init)
@@ -331,6 +368,8 @@ int main(int argc, char** argv)
         Impl im;
         for(int s = 0; s < 3; ++s) { im.slot[s].kind = kinds[cfg][s]; m.kind[s] = kinds[cfg][s]; m.var[s] = 0; im.slot[s].set_variant(s, 0); m.content[s] = im.slot[s].fp(); }
         m.allow_empty_load = (hz_empty == 0);
+        for(int s = 0; s < 3; ++s) m.by[s].clear();
+        m.stale = false; m.nloads = 0; m.restored = false;
         m.reg.clear(); m.has_stream = false; m.stream.clear(); m.loaded = false; m.input.clear();
         for(int n = 0; n < 3; ++n) if(init & (1 << n)) { im.slot[n].add_to(im.cp, NAMES[n]); m.reg[NAMES[n]] = n; }
         enabled_last = true;
@@ -343,14 +382,15 @@ int main(int argc, char** argv)
             if(!m.enabled(o)) { enabled_last = false; return false; }
             switch(o.k)
             {
-            case O_ADD: im.slot[o.slot].add_to(im.cp, NAMES[o.name]); m.reg[NAMES[o.name]] = o.slot; break;
-            case O_REMOVE: im.cp.remove_object(NAMES[o.name]); m.reg.erase(NAMES[o.name]); break;
-            case O_MUTATE: m.var[o.slot] = (m.var[o.slot] + 1) % NVAR; im.slot[o.slot].set_variant(o.slot, m.var[o.slot]); m.content[o.slot] = im.slot[o.slot].fp(); break;
+            case O_ADD: im.slot[o.slot].add_to(im.cp, NAMES[o.name]); m.reg[NAMES[o.name]] = o.slot; m.stale = true; break;
+            case O_REMOVE: im.cp.remove_object(NAMES[o.name]); m.reg.erase(NAMES[o.name]); m.stale = true; break;
+            case O_SHARE: im.slot[o.slot].share(); m.by[o.slot] = m.content[o.slot]; break;
+            case O_MUTATE: m.stale = true; m.var[o.slot] = (m.var[o.slot] + 1) % NVAR; im.slot[o.slot].set_variant(o.slot, m.var[o.slot]); m.content[o.slot] = im.slot[o.slot].fp(); break;
             case O_SAVE:
               {
                 im.bs.clear();
                 im.cp.save(im.bs);
-                m.has_stream = true; m.stream.clear();
+                m.has_stream = true; m.stream.clear(); m.stale = false;
                 for(auto& r : m.reg) m.stream[r.first] = {m.kind[r.second], m.content[r.second]};
                 // layout of the written stream
                 std::vector<std::pair<std::string, u64>> entries; std::string err;
@@ -365,10 +405,10 @@ int main(int argc, char** argv)
               }
               break;
             case O_CLEAR: im.cp.clear_input(); m.loaded = false; m.input.clear(); break;
-            case O_LOAD: im.bs.seekg(0); im.cp.load(im.bs); m.loaded = !m.stream.empty(); m.input = m.stream; break;
+            case O_LOAD: im.bs.seekg(0); im.cp.load(im.bs); m.loaded = !m.stream.empty(); m.input = m.stream; m.nloads = std::min(2, m.nloads + 1); m.restored = false; break;
             case O_RESTORE:
               im.slot[o.slot].restore_from(im.cp, NAMES[o.name], o.add);
-              m.content[o.slot] = m.input[NAMES[o.name]].second;
+              m.content[o.slot] = m.input[NAMES[o.name]].second; m.stale = true; m.restored = true;
               if(o.add) m.reg[NAMES[o.name]] = o.slot;
               break;
             }
@@ -378,6 +418,7 @@ int main(int argc, char** argv)
           {
             bool ok = true; std::string err;
             for(int s = 0; s < 3 && ok; ++s) if(im.slot[s].fp() != m.content[s]) { ok = false; err = "slot " + std::to_string(s) + " holds " + im.slot[s].fp() + " expected " + m.content[s]; }
+            for(int s = 0; s < 3 && ok; ++s) if(im.slot[s].by_fp() != m.by[s]) { ok = false; err = "a container sharing the former arrays of slot " + std::to_string(s) + " changed: " + im.slot[s].by_fp() + " expected " + m.by[s]; }
             std::string ids;
             for(auto& r : m.reg) { if(!ids.empty()) ids += "\n"; ids += r.first; }
             if(ok && im.cp.get_identifier_list() != ids) { ok = false; err = "identifier list '" + im.cp.get_identifier_list() + "' expected '" + ids + "'"; }
@@ -398,7 +439,7 @@ int main(int argc, char** argv)
             }
           }
         }
-        key = im.key();
+        key = im.key() + "|M" + (m.stale ? "s" : "-") + std::to_string(m.nloads) + (m.restored ? "r" : "-");
         return true;
       };
 
@@ -412,6 +453,7 @@ int main(int argc, char** argv)
       while(!frontier.empty() && !c.cut())
       {
         std::vector<int> hist = frontier.front(); frontier.pop_front();
+        c.heartbeat();
         if(hist.size() >= depth) continue;
         // which operations are enabled in the model state reached by hist
         Model mh; std::string kh; bool en;
